@@ -852,6 +852,14 @@ class CommandPipeline:
 
     def _close_prev_procs(self):
         """Closes all but the last proc's stdout."""
+        # Close the read ends of all connecting pipes first.  A writer that is
+        # blocked on a full pipe only gets EPIPE once no reader is left, and in
+        # a chain the next stage holds its own copy while it is itself blocked
+        # further down: closing and waiting stage by stage made `a | b | head`
+        # sit out the 3 s timeout for `a` and never collect it afterwards.
+        for s in self.specs[:-1]:
+            for ch in s.pipe_channels:
+                ch.close_reader()
         for s, p in zip(self.specs[:-1], self.procs[:-1], strict=False):
             self._safe_close(s.stdin)
             self._safe_close(s.stderr)
